@@ -6,9 +6,11 @@ import (
 	"strings"
 )
 
-var Lits = []string{"a", "b", "ab", "foo", "bar", "foobar", "x", "q", "fo", "ba"}
+var Lits = []string{"a", "b", "ab", "foo", "bar", "foobar", "x", "q", "fo", "ba", "a", "b", "foo", "x",
+	// static text whose first byte sorts before '*' or after '{' (next to wildcard siblings the order of the edges matters)
+	"~a", "$b", "!c", "|d", "éf", "_g", "(h"}
 var MidLits = []string{"a", "b", "ab", "id:", "foo", "x"}
-var Hosts = []string{"a.com", "b.com", "{h0}.com", "a.{h1}", "x.a.com", "{h0}.a.com", "a.co", "a{h0}.com", "{h0}.{h1}", "a.com.org", "ab.com", "x.{h1}.com", "{h0}.co", "{h0}.com.org", "a{h0}.co", "x.{h1}.co", "a.b.c", "a.b.d.e", "a.b.d.{h3}", "a.{h1}.c", "a.b", "a.{h1}.d.e", "{h0}.b.com", "{h0}.{h1}.com", "api-eu.com", "api.com", "api", "api-int", "a.com-m.org", "{h0}.co-op"}
+var Hosts = []string{"a.com", "b.com", "{h0}.com", "a.{h1}", "x.a.com", "{h0}.a.com", "a.co", "a{h0}.com", "{h0}.{h1}", "a.com.org", "ab.com", "x.{h1}.com", "{h0}.co", "{h0}.com.org", "a{h0}.co", "x.{h1}.co", "a.b.c", "a.b.d.e", "a.b.d.{h3}", "a.{h1}.c", "a.b", "a.{h1}.d.e", "{h0}.b.com", "{h0}.{h1}.com", "api-eu.com", "api.com", "api", "api-int", "a.com-m.org", "{h0}.co-op", "{h0}", "{h0}", "a.{h1}", "a.b.{h2}"}
 var Methods = []string{"GET", "POST", "PATCH", "FOO"}
 
 // Profile tunes the generator.
@@ -215,7 +217,7 @@ func Set(r *rand.Rand, pf Profile, try func(pattern string) bool) []string {
 	return acc
 }
 
-var Vals = []string{"a", "b", "ab", "1", "foo", "zz", "bar", "x", "foobar", "fo", "q", "*a", "{a", "a}", "a:b", "%41", "é", "*{c1}", "{p1}", "ba"}
+var Vals = []string{"a", "b", "ab", "1", "foo", "zz", "bar", "x", "foobar", "fo", "q", "*a", "{a", "a}", "a:b", "%41", "é", "*{c1}", "{p1}", "ba", "my report", "~a", "$b", "caf\u00e9 x", "a|b", "^"}
 var HostVals = []string{"a", "b", "x", "foo", "1", "a-b", "com", "co", "*a", "{a", "ab"}
 var CatchVals = []string{"a", "1/2", "a/b/c", "foo/bar", "b", "x/a", "q/x/y", "*a/b", "a/{p", "foo", "ab/ba"}
 
